@@ -6,6 +6,7 @@
 #include "nmtools/utl/common.hpp"
 #include "nmtools/utl/array.hpp"
 #include "nmtools/meta/bits/array/resize_bounded_size.hpp"
+#include "nmtools/verif.hpp"
 
 // poor man's static_vector,
 // very simple and minimalistic implementation of static_vector
@@ -56,7 +57,13 @@ namespace nmtools::utl
         {}
         constexpr static_vector(size_type n)
             : size_(n)
+        #ifdef NMTOOLS_VERIF
+        {
+            NMTOOLS_VERIF_EVENT(verif::capacity(verif::SVEC_CAPACITY,(long long)n,(long long)Capacity));
+        }
+        #else // NMTOOLS_VERIF
         {}
+        #endif // NMTOOLS_VERIF
 
         template <typename...Ts>
         constexpr static_vector(T a, T b, Ts...ts)
@@ -71,6 +78,7 @@ namespace nmtools::utl
 
         constexpr void resize(size_type new_size)
         {
+            NMTOOLS_VERIF_EVENT(verif::capacity(verif::SVEC_CAPACITY,(long long)new_size,(long long)Capacity));
             // TODO: assert/throw
             if (new_size <= Capacity) {
                 size_ = new_size;
@@ -89,6 +97,7 @@ namespace nmtools::utl
 
         constexpr void push_back(const T& t)
         {
+            NMTOOLS_VERIF_EVENT(verif::capacity(verif::SVEC_CAPACITY,(long long)size_+1,(long long)Capacity));
             if (size_+1 > Capacity) {
                 return;
             }
@@ -110,6 +119,7 @@ namespace nmtools::utl
         constexpr reference at(index_type i)
         {
             // TODO: assert/throw
+            NMTOOLS_VERIF_EVENT(verif::bounds(verif::SVEC_AT,(long long)i,(long long)size_); verif::bounds(verif::SVEC_AT_CAP,(long long)i,(long long)Capacity));
             return buffer[i];
         }
 
@@ -117,6 +127,7 @@ namespace nmtools::utl
         constexpr const_reference at(index_type i) const
         {
             // TODO: assert/throw
+            NMTOOLS_VERIF_EVENT(verif::bounds(verif::SVEC_AT,(long long)i,(long long)size_); verif::bounds(verif::SVEC_AT_CAP,(long long)i,(long long)Capacity));
             return buffer[i];
         }
 
@@ -128,12 +139,14 @@ namespace nmtools::utl
         nmtools_index_attribute
         constexpr reference operator[](index_type i) noexcept
         {
+            NMTOOLS_VERIF_EVENT(verif::bounds(verif::SVEC_AT,(long long)i,(long long)size_); verif::bounds(verif::SVEC_AT_CAP,(long long)i,(long long)Capacity));
             return buffer[i];
         }
 
         nmtools_index_attribute
         constexpr const_reference operator[](index_type i) const noexcept
         {
+            NMTOOLS_VERIF_EVENT(verif::bounds(verif::SVEC_AT,(long long)i,(long long)size_); verif::bounds(verif::SVEC_AT_CAP,(long long)i,(long long)Capacity));
             return buffer[i];
         }
 
